@@ -471,12 +471,19 @@ def _livepatch__class(oldclass, newclass, modname, cache, visit_stack):
     for name in ("__dict__", "__weakref__"):
         oldnames.discard(name)
         newnames.discard(name)
+    # Update the base classes first: CPython refuses some changes of
+    # ``__bases__`` (e.g. when the memory layout of instances would change);
+    # in that case we can't livepatch the class, and nothing has been touched
+    # yet.
+    try:
+        oldclass.__bases__ = _livepatch__bases(
+            oldclass, newclass, modname, cache, visit_stack)
+    except TypeError:
+        return newclass
     for name in oldnames - newnames:
         delattr(oldclass, name)
     for name in newnames - oldnames:
         setattr(oldclass, name, newdict[name])
-    oldclass.__bases__ = _livepatch__bases(
-        oldclass, newclass, modname, cache, visit_stack)
     names = oldnames & newnames
     names.difference_update(olddict.get("__slots__", []))
     names.discard("__slots__")
